@@ -1,5 +1,5 @@
 '''prototype: symbolic numpy arrays with concrete shape'''
-import numpy, z3, types as pytypes, itertools, functools, operator
+import fractions, numpy, z3, types as pytypes, itertools, functools, operator
 from .sym import *
 
 NPDT = {'b': numpy.dtype(bool), 'i': numpy.dtype('int64'), 'f': numpy.dtype('float64'), 'c': numpy.dtype('complex128')}
@@ -66,6 +66,8 @@ class SArray:
     def __repr__(s): return f'SArray<{s.kind}>{s.a!r}'
     def __format__(s, spec): return '<symarray>'
     def setflags(s, **kw): s.a.setflags(**kw)
+    @property
+    def flags(s): return s.a.flags
     def fill(s, v): s.a.fill(s._elem(v))
     def copy(s): return SArray(s.a.copy(), s.kind)
     def item(s): return s.a.item()
@@ -199,9 +201,26 @@ def _vec(f, nin=1):
         return r
     return g
 
+def _map_ite(t, fn, depth=0):
+    '''apply a concrete float function to the numeric leaves of an if-then-else tree (selection among constants by a symbolic index); None if t is anything else'''
+    if z3.is_rational_value(t):
+        fr = t.as_fraction(); v = fn(float(fr))
+        if not numpy.isfinite(v): return None
+        return z3.RealVal(fractions.Fraction(float(v)))
+    if depth < 12 and z3.is_app(t) and t.decl().kind() == z3.Z3_OP_ITE:
+        a, b = _map_ite(t.arg(1), fn, depth + 1), _map_ite(t.arg(2), fn, depth + 1)
+        if a is None or b is None: return None
+        return z3.If(t.arg(0), a, b)
+    return None
+
 def _call_method(name):
     def f(x):
-        if isinstance(x, Sym): return getattr(x, name)()
+        if isinstance(x, Sym):
+            if x.kind == 'f' and type(x) is SReal and z3.is_app(x.t) and x.t.decl().kind() == z3.Z3_OP_ITE:
+                with numpy.errstate(all='ignore'):
+                    m = _map_ite(x.t, getattr(numpy, name))
+                if m is not None: return SReal(m)
+            return getattr(x, name)()
         return pyval(getattr(numpy, name)(x))
     return f
 
@@ -721,6 +740,12 @@ def _norm(a, ord=None, axis=None, **kw):
         ctx().side.append(z3.And(n >= 0, n * n == lift(x).cast('f').t))
         out[i] = SReal(n)
     return SArray(out, 'f')
+@handles(numpy.may_share_memory)
+def _may_share(a, b, **kw):
+    return numpy.may_share_memory(a.a if isinstance(a, SArray) else a, b.a if isinstance(b, SArray) else b)
+@handles(numpy.shares_memory)
+def _shares(a, b, **kw):
+    return numpy.shares_memory(a.a if isinstance(a, SArray) else a, b.a if isinstance(b, SArray) else b)
 @handles(numpy.real)
 def _real(a): return SArray.wrap(a).real
 @handles(numpy.imag)
